@@ -9,6 +9,7 @@ mod log_replay;
 mod shimmark;
 mod mani_run;
 mod setsum_replay;
+mod damage;
 
 fn main() {
     let args: Vec<String> = std::env::args().collect();
@@ -29,6 +30,7 @@ fn main() {
         "mani-run" => mani_run::run(&args[2..]),
         "mani-recover" => mani_run::recover(&args[2..]),
         "mani-cuts" => mani_run::cuts(&args[2..]),
+        "damage-run" => damage::main(&args[2..]),
         "setsum-replay" => setsum_replay::main(&args[2..]),
         x => common::tool_error(&format!("unknown subcommand {x}")),
     }
